@@ -19,7 +19,7 @@ ID = "C19"
 LEVEL = "exploration"
 RULE = ("rounds of N in {2,4,8,16} threads started on a barrier with sys.setswitchinterval(1e-6); every thread runs its own slice of "
         "120-200 encoder/decoder jobs plus a shared hot subset, the jobs carry novel symbols (random isotopes / charges) so that "
-        "first-sight cache writes race, several threads receive the very same novel input at the same time; in half of the rounds a "
+        "first-sight cache writes race, several threads receive the very same novel input, and a dozen never-seen inputs per round are started by all threads at the same instant (one barrier per input); in half of the rounds a "
         "sys.monitoring LINE callback yields (sleep(0)) with probability 0.02 at statements of the repository's code. Every call's "
         "result (value or exception type, attribution included) is compared with the same call run alone in a freshly forked "
         "interpreter set to the same table. distinct = distinct job; non-trivial = job executed while another thread was inside "
@@ -37,7 +37,10 @@ def timeout(tier):
 
 def floors(tier):
     return {"calls": 5000, "overlapping_calls": 2000, "switches_inside_repo": 5000, "rounds": 60, "rounds_with_injection": 25, "set:yield_focus": 6,
-            "novel_symbol_jobs": 2000, "same_input_in_several_threads": 500, "set:thread_counts": 4, "M4b.augmenting_path_searches": 300}
+            "novel_symbol_jobs": 2000, "simultaneous_first_sight_calls": 2000, "same_input_in_several_threads": 500, "set:thread_counts": 4, "M4b.augmenting_path_searches": 300}
+
+
+FILES = ["matching_utils", "mol_graph", "decoder", "encoder", "grammar_rules", "smiles_utils", "bond_constraints"]
 
 
 def do(sf, job):
@@ -102,6 +105,31 @@ def make_jobs(rng, table, n):
     return jobs + deep, n_normal
 
 
+def make_sync_jobs(rng, table):
+    """Jobs that every thread of a round starts at the same instant (own barrier per job) and that nobody has run before:
+    whatever the library computes once per new input / new graph shape / new symbol is computed by all threads together."""
+    jobs = []
+    for _ in range(24):
+        sizes = rng.choice([(6,), (6,), (5, 6, 6, 7), (5, 6, 6)])
+        m, _, _ = standard_system(rng, nrings=rng.choice([5, 8, 10, 14, 20]), sizes=sizes, chords=0)
+        jobs.append(["e", spell(m, rng)[0], {"strict": False}])
+    for _ in range(4):
+        syms = ["[%d%s%s]" % (rng.randint(100000, 999999), rng.choice(["C", "N", "O", "S", "P", "Si", "Fe"]), rng.choice(["", "", "H1", "+1", "-1"]))
+                for _ in range(rng.choice([6, 12]))]
+        syms.insert(2, rng.choice(["[Branch1]", "[Ring1]", "[=Branch1]"]))
+        jobs.append(["d", "".join(syms), {"attribute": rng.random() < 0.2}])
+    for _ in range(2):
+        m = random_tree_mol(rng, rng.choice([8, 15]), p_ring=0.3, p_bracket=0.4, table=table)
+        for a in m.atoms:
+            if a.hcount is not None:
+                a.isotope = rng.randint(1000, 99999)
+        if m.atoms:
+            jobs.append(["e", spell(m, rng)[0], {"strict": rng.random() < 0.5}])
+    # unusual but accepted notations (each takes a path ordinary inputs never take)
+    jobs.append(["e", rng.choice(["C:C", "OC:CN", "C-C=C-C", "C=1CCCCC=1", "C%12CC%12", "[C][C]", "C1.C1", "[CH3][CH2-]", "N(C)(C)(C)(C)C"]), {"strict": False}])
+    return jobs
+
+
 def run(ctx):
     sf = env.load_selfies()
     rng = ctx.rng
@@ -118,6 +146,9 @@ def run(ctx):
             ctx.see("thread_counts", nth)
             jobs, n_normal = make_jobs(rng, table, rng.choice([120, 200]))
             hot = list(range(0, n_normal, 7))      # the (expensive) deep jobs run once each, not in every thread
+            sync_jobs = make_sync_jobs(rng, table)
+            sync_results = [[] for _ in sync_jobs]
+            stagger = [rng.choice([0, 0, 2e-5, 1e-4, 5e-4, 2e-3]) for _ in sync_jobs]
             inject = (rnd % 2 == 1)
             results = [None] * len(jobs)
             hot_results = [[] for _ in jobs]
@@ -140,10 +171,27 @@ def run(ctx):
                         mine.append((t0, time.monotonic_ns(), k, i))
                         with lock:
                             hot_results[i].append(r)
+                    for i, job in enumerate(sync_jobs):
+                        if k == 0 and inject:
+                            # the forced switches of this job go to one source file, the files take turns
+                            inj.focus = FILES[(i + rnd) % len(FILES)]
+                            inj.p_focus = 0.25
+                            inj.max_yields = inj.yields + 4000
+                        bar.wait(timeout=300)
+                        if stagger[i]:
+                            # the threads enter one after the other: the later ones arrive while the earlier ones are
+                            # in the middle of whatever is computed once per new input
+                            time.sleep(k * stagger[i])
+                        t0 = time.monotonic_ns()
+                        r = do(sf, job)
+                        mine.append((t0, time.monotonic_ns(), k, len(jobs) + i))
+                        with lock:
+                            sync_results[i].append(r)
                     with lock:
                         spans.extend(mine)
                 except BaseException as e:   # harness failure, never swallowed
                     errors.append(repr(e))
+                    bar.abort()
 
             # every injected round concentrates the forced switches on one source file (and keeps a low rate elsewhere)
             focus = rng.choice(["matching_utils", "mol_graph", "decoder", "encoder", "grammar_rules", "smiles_utils",
@@ -192,8 +240,18 @@ def run(ctx):
             ctx.count("calls", len(spans))
             ctx.count("novel_symbol_jobs", sum(1 for j in jobs if j[0] == "d"))
             ctx.count("same_input_in_several_threads", len(hot) * nth)
+            ctx.count("simultaneous_first_sight_calls", len(sync_jobs) * nth)
             # serial truth from a fresh child (cannot be contaminated by the concurrent run)
-            serial = z.run(table, jobs)
+            serial_all = z.run(table, jobs + sync_jobs)
+            serial, serial_sync = serial_all[:len(jobs)], serial_all[len(jobs):]
+            for i, j in enumerate(sync_jobs):
+                ctx.case((j[0], j[1], sorted(j[2].items())), True)
+                for r in sync_results[i]:
+                    if r != serial_sync[i]:
+                        ctx.finding("concurrent-result-differs-from-serial",
+                                    {"job": j, "table": table, "threads": nth, "yield_injection": inject, "simultaneous_start": True},
+                                    "all threads at once: concurrent %s ; alone %s" % (repr(r)[:300], repr(serial_sync[i])[:300]))
+                        break
             for i, j in enumerate(jobs):
                 ov = any(o[1] == i for o in overl)
                 ctx.case((j[0], j[1], sorted(j[2].items())), ov,
